@@ -68,3 +68,9 @@ Definition run_cache (x : list av * list (call av)) : J :=
   let '(pool, cs) := x in
   let st := crun (call_key true) lz_eqb (fun n _ => avJ (nth n pool ANone)) cs in
   JL [JL (rets st); JL (map callJ (trace st))].
+
+(* try_value(value = v) over a history: step i raises or returns i; the caller mutates every fallback it receives *)
+Fixpoint hist_outs (i : Z) (steps : list bool) : list (lres J) :=
+  match steps with [] => [] | b :: steps' => (if b then LErr "ValueError" else LOk (JZ i)) :: hist_outs (i + 1) steps' end.
+Definition run_tryhist (x : av * list bool) : J :=
+  let '(v, steps) := x in JL (try_hist true (fun r => JL [r; JS "mutated"]) (avJ v) (hist_outs 0 steps)).
